@@ -5,7 +5,7 @@
   decoder's member (GeneratedSrcObj.lean; the map as an association list, the produced packets as `PktOut` = the arguments of
   `std::make_shared<Packet>` plus the setters applied, `TECMP::Decoder::Decode` as an opaque function).  The theorem says that this
   translation, on any table satisfying the invariant of C17b and any buffer of a CMP frame, is DEFINED (no read outside the
-  supplied buffer, no write outside a vector, no signed overflow of `curSize`) and computes exactly the low-level model `decodeLL`
+  supplied buffer, no write outside a vector; the unsigned `curSize -= packetSize` never wraps) and computes exactly the low-level model `decodeLL`
   (DecoderLL.lean) — which `C17b.decodeLL_refines` proves equal to the decoder model that C01, C02, C04–C06, C17, C18 are about.
 -/
 import AsamCmp.GeneratedSrcObj
@@ -31,11 +31,11 @@ def TableReg (t : Table) : Prop := ∀ x ∈ t, x.2.seq < 65536 ∧ x.2.payload.
     left summands only -/
 theorem decode_src {F : Type} (t : Table) (pre b post : Bytes) (fuel : Nat) (ext : Bytes → Nat → Nat → List F)
     (hT : C17b.TableOk t) (hR : TableReg t) (hpre : 0 < pre.length) (h8 : 8 ≤ b.length) (h0 : byteAt b 0 ≠ 0)
-    (hlen : b.length < 2 ^ 31) (hmem : (pre ++ b ++ post).length < 2 ^ 63) (hf : b.length ≤ fuel) :
+    (hmem : (pre ++ b ++ post).length < 2 ^ 63) (hf : b.length ≤ fuel) :
     ∃ outs : List PktOut, Decoder_decode_obj fuel (tblSt t) (pre ++ b ++ post) pre.length b.length ext =
         some (tblSt (decodeLL t (some b)).1, outs.map Sum.inl) ∧
       outs.map toPacket = (decodeLL t (some b)).2 := by
-  exact decode_frame_src t pre b post fuel ext hT hR hpre h8 h0 hlen hmem hf
+  exact decode_frame_src t pre b post fuel ext hT hR hpre h8 h0 hmem hf
 
 /-- null pointer, buffer shorter than a frame header, TECMP buffer: no state change; the TECMP decoder's result is returned as is
     (right summands only) -/
